@@ -1,7 +1,7 @@
 """Structural comparison of two library results (arrays, tuples, or Gaussian-form objects)."""
 import numpy as np
 
-from .compare import Failure, check, lib
+from .compare import RESOURCE_MARKERS, Failure, ResourceExhausted, check, lib
 
 ATTRS = ["Lambda", "nu", "ln_beta", "Sigma", "mu", "ln_det_Sigma", "ln_det_Lambda", "lnZ", "M", "b"]
 
@@ -84,6 +84,9 @@ def both(fails, label, fa, fb):
         eb = e
     if ea is None and eb is None:
         return True, ra, rb
+    for e_ in (ea, eb):
+        if e_ is not None and (isinstance(e_, MemoryError) or any(t in str(e_) for t in RESOURCE_MARKERS)):
+            raise ResourceExhausted(f"{label}: {type(e_).__name__}: {str(e_)[:200]}") from e_  # inconclusive, never a finding
     if ea is not None and eb is not None:
         # both refuse: consistent behaviour (not a differential finding); counted so that vacuity is visible
         fails.append(Failure("excluded:both_raise:" + label, f"{type(ea).__name__}: {str(ea)[:160]} | {type(eb).__name__}: {str(eb)[:160]}"))
